@@ -219,8 +219,35 @@ func (ex *Exec) errorStringPtrType() types.Type {
 func mTrimSpace(ex *Exec, c *callCtx) Value {
 	switch x := c.args[0].(type) {
 	case StrV:
-		if x.Lit != nil {
-			return StrLit(strings.TrimSpace(*x.Lit))
+		if l, ok := litOf(x); ok {
+			return StrLit(strings.TrimSpace(l))
+		}
+		if x.T.op == "ite" {
+			// a choice of values (e.g. a map lookup): trim each alternative
+			memo := map[*Term]*Term{}
+			var walk func(t *Term) *Term
+			walk = func(t *Term) *Term {
+				if r, ok := memo[t]; ok {
+					return r
+				}
+				var r *Term
+				switch {
+				case t.op == "ite":
+					r = Ite(t.args[0], walk(t.args[1]), walk(t.args[2]))
+				case t.IsConst():
+					if l, ok := Lits.byCode[t.ival.Int64()]; ok {
+						r = StrLit(strings.TrimSpace(l)).T
+					}
+				case t.op == "uf:trim":
+					r = t
+				}
+				if r == nil {
+					r = UF("trim", SInt, t)
+				}
+				memo[t] = r
+				return r
+			}
+			return StrV{T: walk(x.T)}
 		}
 		if x.T.op == "uf:trim" {
 			return x
